@@ -95,6 +95,7 @@ class World:
         self.gid = {}            # Operator -> global id
         self._segs = segs
         style = (len(pipes) + sum(len(ps) for _, d in pipes for ps in d)) % 3
+        scratch = []
         for k, (prio, dag) in enumerate(pipes):
             p = Pipeline(f'p{k + 1}', PRIO[prio])
             self.first.append(len(self.ops))
@@ -109,7 +110,10 @@ class World:
                 elif style == 2:
                     pl = tuple(local[j] for j in parents)
                 else:
-                    pl = [local[j] for j in parents]
+                    # ... nor keep the caller's list: the same scratch list is refilled for every operator and
+                    # emptied at the end
+                    scratch[:] = [local[j] for j in parents]
+                    pl = scratch
                 op = p.new_operator(pl)
                 local.append(op)
                 self.gid[op] = len(self.ops)
@@ -117,6 +121,7 @@ class World:
                 for s in (segs[k][i] if segs else [dict(baseline_cpu_seconds=1, storage_read_gb=1)]):
                     op.add_segment(Segment(**as_callable(s) if CALLABLE_LAWS else s))
             self.pipes.append(p)
+        del scratch[:]
 
     def segs_of(self, gid):
         k = max(i for i, f in enumerate(self.first) if f <= gid)
